@@ -782,3 +782,8 @@ MUTANTS["C08"] += [
     M("revert_role_list_type_test", ARCH, '                                and not any(\n                                    isinstance(op, MemoryOperand)\n                                    for op in instruction_form.semantic_operands["destination"]\n                                )\n',
       '                                and not isinstance(\n                                    instruction_form.semantic_operands["destination"],\n                                    MemoryOperand,\n                                )\n', "R5", "revert of the fix"),
 ]
+
+MUTANTS["C16"] += [
+    M("revert_flags_set_order", ARCH, "        flags = list(dict.fromkeys(flags))\n", "        flags = list(set(flags))\n", "R5", "revert of the fix"),
+    M("flags_sorted_set_is_fine", ARCH, "        flags = list(dict.fromkeys(flags))\n", "        flags = sorted(set(flags))\n", "SILENT", "a total order removes the hash dependence"),
+]
